@@ -1,3 +1,3 @@
-SPECIFICATION SpecQuick
+SPECIFICATION SpecSelf
 CONSTANTS OffByOne = TRUE
 INVARIANTS MaskFits
